@@ -188,6 +188,16 @@ def run(p: Program, rep: Report, tier: str) -> None:
             #     read itself - WSGI: environ.get(KEY, "") ; ASGI: the decoded value of a scope['headers'] pair, or the "" default
             cpaths, ccol, _cit = run_paths(p, call, cls, inline=_sf_inline)
             rep.cfg_paths += len(cpaths)
+
+            def _opaque_read(a_, gate_):
+                """the argument comes out of a repository function that was handed the gateway mapping (a header-picking helper in
+                another module), or out of a container filled in a loop: derived from the request, but not followable here"""
+                for t_ in subterms(a_):
+                    if t_[0] == "call" and t_[1][0] in ("func", "closure") and any(contains(x_, gate_) for x_ in t_[2]):
+                        return True
+                    if t_[0] in ("mut", "loopvar"):
+                        return True
+                return False
             gate = ("param", call.params[1]) if len(call.params) > 1 else ("param", "environ" if side == "wsgi" else "scope")
             n_frc = 0
             for pos, what, key in ((2, "If-None-Match", want[0]), (3, "If-Modified-Since", want[1])):
@@ -215,6 +225,8 @@ def run(p: Program, rep: Report, tier: str) -> None:
                                 seen_read = True
                             elif a[0] != "const" and contains(a, gate) and (a[0] in ("unpack", "unpack*", "star", "top") or any(t[0] in ("star", "unpack*", "top") or (t[0] == "call" and any(k_ == "**" for k_, _v in t[3])) for t in subterms(a))):
                                 unknown_arg = show(a)[:60]  # computed from the request in a way the term language does not follow (**mapping, star)
+                            elif a[0] != "const" and _opaque_read(a, gate):
+                                unknown_arg = show(a)[:60]
                             else:
                                 bad_arg = (e, a)
                         else:
@@ -222,6 +234,8 @@ def run(p: Program, rep: Report, tier: str) -> None:
                             if reads:
                                 seen_read = True
                             elif a[0] != "const" and contains(a, gate) and any(t[0] in ("star", "unpack*", "top") or (t[0] == "call" and any(k_ == "**" for k_, _v in t[3])) for t in subterms(a)):
+                                unknown_arg = show(a)[:60]
+                            elif a[0] != "const" and _opaque_read(a, gate):
                                 unknown_arg = show(a)[:60]
                             elif a != ("const", ""):
                                 bad_arg = (e, a)
